@@ -654,6 +654,56 @@ def rule_len_arith(site):
     return None
 
 
+def _first_component_is_index(f, cname, depth=0):
+    """Every tuple the closure `cname` (an `enumerate()` consumer) can put into `Some(..)` has the enumeration index — the
+    first component of the closure's own argument, possibly captured by a nested closure — as its first component."""
+    cb = f.body(cname)
+    if cb is None or cb.arg_count < 2 or depth > 2:
+        return False
+    sy = K.sym_of(cb)
+    arg = cb.local_name(2)
+
+    def is_idx(x, caps=None):
+        x = peel(x)
+        if x[0] == "field" and str(x[2]) == "0" and peel(x[1])[0] == "param":
+            return True
+        if x[0] == "param" and caps is None:
+            return False
+        return False
+    found = False
+    for blk in cb.blocks:
+        for st in blk["stmts"]:
+            if st["s"] == "assign" and st["rv"]["r"] == "agg":
+                rv = st["rv"]
+                if rv.get("ak") == "tuple" and rv["ops"]:
+                    found = True
+                    if not is_idx(strip_deep(sy.operand(rv["ops"][0]))):
+                        return False
+                elif rv.get("ak") == "closure":
+                    # a nested closure (e.g. `.map(|r| (idx, r))`) that captures the index
+                    nb = f.body(rv["def"])
+                    if nb is None:
+                        continue
+                    nsy = K.sym_of(nb)
+                    capmap = {}
+                    for name, pl in nb.rec.get("upvars", []):
+                        for pe in pl.get("p", []):
+                            if pe and pe[0] == "f":
+                                try:
+                                    capmap[name] = strip_deep(sy.operand(rv["ops"][int(pe[1])]))
+                                except (TypeError, ValueError, IndexError):
+                                    pass
+                                break
+                    for nblk in nb.blocks:
+                        for nst in nblk["stmts"]:
+                            if nst["s"] == "assign" and nst["rv"]["r"] == "agg" and nst["rv"].get("ak") == "tuple" and nst["rv"]["ops"]:
+                                found = True
+                                first = peel(strip_deep(nsy.operand(nst["rv"]["ops"][0])))
+                                if not (first[0] == "upvar" and first[1] in capmap and is_idx(capmap[first[1]])):
+                                    return False
+    return found
+
+
 def find_of(t):
     """(base term rendered, pattern const) if t is the index found by str/slice find on base, or by
     `base.iter().position(pred)` (an element index of the slice: pattern constant 0, any `+ 1` stays within)."""
@@ -661,6 +711,22 @@ def find_of(t):
     if t[0] == "call" and (t[3] or {}).get("name") in ("find", "rfind") and len(t[2]) == 2 and \
             (t[3] or {}).get("trait") != "std::iter::Iterator":
         return render(strip_deep(t[2][0])), const_eval(t[2][1])
+    if t[0] == "field" and str(t[2]) == "0":
+        # `s.iter().enumerate().find_map(|(i, x)| … (i, …))`: the first component of what it found is an element index
+        inner = peel(t[1])
+        if inner[0] == "call" and (inner[3] or {}).get("name") in ("find_map", "find") and len(inner[2]) == 2 and \
+                (inner[3] or {}).get("trait") == "std::iter::Iterator":
+            it = strip_deep(inner[2][0])
+            if it[0] == "mvar":
+                src = strip_deep(it[3])
+                if src[0] == "call" and (src[3] or {}).get("name") == "enumerate" and len(src[2]) == 1:
+                    src = strip_deep(src[2][0])
+                    if src[0] == "call" and (src[3] or {}).get("name") == "iter" and len(src[2]) == 1:
+                        src = strip_deep(src[2][0])
+                    clo = strip_deep(inner[2][1])
+                    if (inner[3] or {}).get("name") == "find" or (clo[0] == "closure" and _LEN_FACTS[0] is not None
+                                                                   and _first_component_is_index(_LEN_FACTS[0], clo[1])):
+                        return render(src), 0
     if t[0] == "call" and (t[3] or {}).get("name") in ("position", "rposition") and len(t[2]) == 2 and \
             (t[3] or {}).get("trait") == "std::iter::Iterator":
         it = strip_deep(t[2][0])
@@ -1170,6 +1236,39 @@ def loop_progress(f, body, scc):
                             or "RangeFrom{" in src:
                         continue
                 return name
+    # a slice local that every turn replaces by a strictly shorter tail of itself: `s = &s[i + 1..]`, `s = &s[1..]`,
+    # `s = s.split_at(i + 1).1`, `(_, s) = s.split_first()?`
+    sy = K.sym_of(body)
+    for c in calls:
+        if c.name not in ("index", "split_at", "split_first") or not c.args:
+            continue
+        base = strip_deep(sy.operand(c.args[0]))
+        bl = None
+        if base[0] == "var" and len(base) > 2 and isinstance(base[2], int):
+            bl = base[2]
+        elif base[0] == "param":
+            for i in range(1, body.arg_count + 1):
+                if body.local_name(i) == base[1]:
+                    bl = i
+        if bl is None or not any(d[0] in scc for d in body.defs().get(bl, [])):
+            continue                          # the local is not re-assigned inside the loop
+        if c.name == "split_first":
+            return "shrinking slice"
+        arg = strip_deep(sy.operand(c.args[1])) if len(c.args) > 1 else None
+        start = None
+        if c.name == "index" and arg is not None and arg[0] == "agg" and arg[2] == "RangeFrom":
+            start = dict(arg[3]).get("start")
+        elif c.name == "split_at":
+            start = arg
+        if start is None:
+            continue
+        st_ = peel(start)
+        cv = const_eval(st_)
+        if cv is not None and cv >= 1:
+            return "shrinking slice"
+        pc = plus_const(st_)
+        if pc and pc[1] >= 1:
+            return "shrinking slice"
     return None
 
 
@@ -1488,7 +1587,7 @@ RULES = [("P0-const", lambda f, s, env: rule_const(s)),
          ("P0-arg", lambda f, s, env: rule_arg_const(s)),
          ("P0-len", lambda f, s, env: (_LEN_FACTS.__setitem__(0, f), rule_len_arith(s))[1]),
          ("P0-layout", lambda f, s, env: rule_layout(f, s)),
-         ("P0-split", lambda f, s, env: rule_find_split(f, s)),
+         ("P0-split", lambda f, s, env: (_LEN_FACTS.__setitem__(0, f), rule_find_split(f, s))[1]),
          ("P0-prefix", lambda f, s, env: rule_prefix_index(f, s)),
          ("P0-windows", lambda f, s, env: rule_windows(f, s)),
          ("P0-nonempty", lambda f, s, env: rule_nonempty(f, s)),
